@@ -25,6 +25,9 @@ type memConn struct {
 	closed bool  // closed by the client
 	out    []byte
 	reads  int
+	writes int
+	// onWrite (optional) is called after the k-th Write (k = 1, 2, …) has been recorded
+	onWrite func(k int)
 }
 
 func newMemConn() *memConn {
@@ -78,6 +81,10 @@ func (c *memConn) Write(p []byte) (int, error) {
 		return 0, errors.New("use of closed connection")
 	}
 	c.out = append(c.out, p...)
+	c.writes++
+	if c.onWrite != nil {
+		c.onWrite(c.writes)
+	}
 	return len(p), nil
 }
 
